@@ -376,6 +376,30 @@ def fam_negative(tier: str) -> Iterator[Dict[str, Any]]:
         yield {"family": "negative", "construct": name, "files": {"Kconfig": text}}
 
 
+def fam_source_twice(tier: str) -> Iterator[Dict[str, Any]]:
+    """the same file sourced more than once (template idiom), with nothing / a macro / an entry between the two source lines"""
+    heads = {
+        "menu": f'menu "tmpl"\n{I}depends on $(TEN)\n\n{I}config TF\n{I}{I}bool "f"\n{I}{I}default y\n\nendmenu\n',
+        "choice": f'choice\n{I}prompt "tmpl"\n\n{I}config TA\n{I}{I}bool "a"\n\n{I}config TB\n{I}{I}bool "b"\n\nendchoice\n',
+        "if": f'if $(TEN)\n\n{I}config TF\n{I}{I}bool "f"\n\nendif\n',
+        "config": f'config TF\n{I}bool "f"\n{I}depends on $(TEN)\n',
+        "comment": f'comment "tmpl"\n\nconfig TF\n{I}bool "f"\n',
+    }
+    between = {"nothing": "", "macro": f"{I}TEN = B\n{I}TSUF = 2\n\n", "config": cfgblock("MID", ['bool "mid"']), "comment": f'{I}comment "mid"\n\n'}
+    for hk, head in heads.items():
+        for bk, btw in between.items():
+            for how in ("rsource", "orsource"):
+                for times in (2, 3):
+                    body = f"{I}TEN = A\n{I}TSUF = 1\n\n" + cfgblock("A", ['bool "a"', "default y"]) + cfgblock("B", ['bool "b"'])
+                    body += f'{I}{how} "Kconfig.tmpl"\n\n' + (btw + f'{I}{how} "Kconfig.tmpl"\n\n') * (times - 1) + cfgblock("TAIL", ['int "tail"', "default 7"])
+                    yield {"family": "source_twice", "construct": f"{hk}/{bk}/{how}/x{times}", "files": {"Kconfig": mm(body), "Kconfig.tmpl": head}}
+    # sourced from inside containers
+    for cont in ("menu", "if", "choice"):
+        open_, close = {"menu": (f'{I}menu "outer"\n\n', f"{I}endmenu\n\n"), "if": (f"{I}if A\n\n", f"{I}endif\n\n"), "choice": (f'{I}choice\n{I}{I}prompt "outer"\n\n', f"{I}endchoice\n\n")}[cont]
+        body = cfgblock("A", ['bool "a"', "default y"]) + open_ + f'{I}{I}rsource "Kconfig.tmpl"\n\n{I}{I}rsource "Kconfig.tmpl2"\n\n' + close + cfgblock("TAIL", ['int "tail"', "default 7"])
+        yield {"family": "source_twice", "construct": f"two_files_in_{cont}", "files": {"Kconfig": mm(body), "Kconfig.tmpl": cfgblock("S1", ['bool "s1"'], ind=""), "Kconfig.tmpl2": cfgblock("S2", ['bool "s2"'], ind="")}}
+
+
 def fam_fixtures(tier: str) -> Iterator[Dict[str, Any]]:
     root = common.REPO_ROOT
     pats = ["test/kconfiglib/kconfigs/ok/*.in", "test/kconfiglib/kconfigs/warnings/*.in", "test/kconfiglib/kconfigs/errors/*.in", "test/kconfiglib/kconfigs/Kconfig.*",
@@ -388,7 +412,7 @@ def fam_fixtures(tier: str) -> Iterator[Dict[str, Any]]:
                 yield {"family": "fixture", "construct": os.path.relpath(f, root), "path": f}
 
 
-FAMILIES = (fam_options, fam_expr, fam_structure, fam_lexical, fam_negative, fam_fixtures)
+FAMILIES = (fam_options, fam_expr, fam_structure, fam_lexical, fam_negative, fam_source_twice, fam_fixtures)
 
 
 def items(tier: str, seed: int):
